@@ -95,6 +95,25 @@ def run(ctx):
     # rayon must be absent from the sequential configuration
     seq_rayon = [(G.canon_of(b), c.fn) for b in G.bodies.values() for c in b.calls if (c.fn or c.name).startswith("rayon::")]
     ctx.ob(R, "sequential-build-has-no-rayon", not seq_rayon, "no rayon call in --no-default-features", "", what="the sequential configuration still calls rayon: %s" % seq_rayon[:2])
+    # (ii-a) the parallel iterator runs over the same items as the sequential one: the operand (and chunk size) of every
+    # rayon source is, in the sequential configuration, the operand of the corresponding std source in the same function
+    SEQ_OF = {"par_chunks": "chunks", "par_chunks_exact": "chunks_exact", "par_iter": "iter", "into_par_iter": "into_iter", "par_iter_mut": "iter_mut",
+              "par_chunks_mut": "chunks_mut", "par_windows": "windows"}
+    nsrc = 0
+    for p, b in sorted(F.bodies.items()):
+        for c in b.calls:
+            n = c.fn or c.name
+            short = n.rsplit("::", 1)[-1]
+            if not n.startswith("rayon::") or short not in SEQ_OF:
+                continue
+            nsrc += 1
+            want = [b.sname(a, 8) for a in c.args]
+            gp = G.fns(F.canon_of(b))
+            got = [[g.sname(a, 8) for a in c2.args] for g in gp for c2 in g.calls if (c2.fn or c2.name).rsplit("::", 1)[-1] == SEQ_OF[short]]
+            ctx.ob(R, "same-source-sequential|%s|%s" % (F.canon_of(b), short), want in got, "%s(%s) runs over the operand of %s in --no-default-features" % (short, b.oname(c.args[0], 3), SEQ_OF[short]),
+                   b.where(c.ln), what="%s: the parallel build iterates %s(%s) but the sequential build has no %s over the same operand (it has %s): the two builds process different items"
+                                       % (F.canon_of(b), short, ", ".join(b.oname(a, 3) for a in c.args), SEQ_OF[short], [x[0][:80] for x in got][:3]))
+    ctx.floor(R, "rayon iterator sources", nsrc, 2)
     for parent, call, cdef in par:
         pfn = F.canon_of(parent)
         cb = F.bodies.get(cdef)
